@@ -228,9 +228,10 @@ def c13_oracle(N, SR, kind, f_cut, order, rng):
         if kind == "HP":
             # default DC gain 0 on the filter side: only a constant offset is lost
             c = ripasso.applyInverseRCFilter(ripasso.applyRCFilter(x, SR, kind, f_cut, order), SR, kind, f_cut, order, DCgain=1)
-            dlt = np.asarray(c) - x
-            if np.max(np.abs(dlt - dlt.mean())) > 1e-8 * cond * cond * max(1.0, float(np.max(np.abs(x)))):
-                out.append(f"HP round trip with DC gain 0 differs from the input by more than a constant (N={N}, f_cut={f_cut}, order={order})")
+            D = np.fft.fft(np.asarray(c) - x)
+            inner = [j for j in range(1, N) if abs(freqs[j]) < SR / 2 * (1 - 1e-12)]      # every bin but DC, below Nyquist
+            if inner and np.max(np.abs(D[inner])) > 1e-8 * cond * cond * max(1.0, float(np.max(np.abs(X)))):
+                out.append(f"HP round trip with DC gain 0 differs from the input by more than a constant below Nyquist (N={N}, f_cut={f_cut}, order={order})")
                 return out
     # orders compose additively; order -n is the compensation of order n
     x = signals[-1]
